@@ -45,6 +45,8 @@ def configs(tier):
             add(group='inc', cls=cls, d=2, q=1, m=2, mode=mode, imputer='joint', storage='uniform', resume=False, _cost=100)
             add(group='inc', cls=cls, d=2, q=1, m=1, mode=mode, imputer='default', storage='batch', resume=True, _cost=50)
             add(group='inc', cls=cls, d=2, q=1, m=2, mode=mode, imputer='joint', storage='batch', labels=2, resume=False, _cost=200)
+            add(group='inc', cls=cls, d=1, q=1, m=1, mode=mode, imputer='default', storage='batch', labels=2, varlabels=True, resume=True, _cost=200)
+            add(group='inc', cls=cls, d=2, q=1, m=1, mode=mode, imputer='joint', storage='batch', labels=3, varlabels=True, resume=False, _cost=800)
             add(group='inc', cls=cls, d=3, q=1, m=1, mode=mode, imputer='joint', storage='batch', resume=False, _cost=300)
             if tier == 'thorough':
                 add(group='inc', cls=cls, d=3, q=1, m=2, mode=mode, imputer='joint', storage='batch', resume=False, _cost=3000)
